@@ -256,15 +256,8 @@ def check_multiform_tables(idx: Index, rep: Report):
             rep.decide(ok, rule, mul, ctab, text=f"{code[a]}*{code[b]} = {ph} {code[lab]}",
                        what="phase table entry [a][b] and XOR label reproduce the Pauli product sigma_a sigma_b",
                        reason=f"table gives {ph} * {code[lab]}, but {code[a]}*{code[b]} = {sp.simplify(prod).tolist()}")
-    # product label is XOR of integer codes, table indexed [self, other]
-    body = norm(mul.node)
-    uses = [n for n in own_nodes(mul.node) if isinstance(n, ast.Subscript) and norm(n.value) == "c_calc"]
-    ok = bool(uses) and norm(uses[0].slice).replace(" ", "") in ("(self.integer[term_i],other_operator.integer)", "(integer,other_operator.integer)")
-    rep.decide(ok, rule, mul, uses[0] if uses else mul.node, text="phase table indexed [left term, right operand]",
-               what="the phase table is indexed by (left Pauli, right Pauli)", reason=f"indexed by {norm(uses[0].slice) if uses else '?'}")
-    xors = [n for n in own_nodes(mul.node) if isinstance(n, ast.BinOp) and isinstance(n.op, ast.BitXor)]
-    rep.decide(bool(xors), rule, mul, xors[0] if xors else mul.node, text="product label = XOR of integer codes",
-               what="the Pauli label of a product is the XOR of the integer codes", reason="no XOR of integer codes found")
+    # how the table is indexed and how the product label is formed is decided by the folded products (K9.multiform-semantics: every ordered pair of two-qubit
+    # words, phases included) - not by the spelling of the subscript, which alarmed on a behaviour-preserving rewrite of the product loop
 
 
 def check_multiform_semantics(idx: Index, rep: Report, tier: str):
@@ -357,6 +350,28 @@ def check_multiform_semantics(idx: Index, rep: Report, tier: str):
             bad_p.append(f"({_show(ops[i])}) * ({_show(ops[j])}) = {_show(got)}, symbolic product {_show(want)}")
         elif prod.fields["integer"].shape[0] != len(prod.fields["terms"]) or len(prod.fields["factors"]) != len(prod.fields["terms"]):
             bad_p.append(f"({_show(ops[i])}) * ({_show(ops[j])}): {prod.fields['integer'].shape[0]} rows for {len(prod.fields['terms'])} terms")
+    # operands defined on registers of different sizes (from_qubitop sizes the arrays from the operator unless told otherwise): the narrower one is the identity elsewhere
+    mixed = [({word("ZZ"): 1.0}, 2, {((0, "X"),): 1.0}, 1), ({((0, "X"),): 1.0}, 1, {word("ZZ"): 1.0}, 2),
+             ({((0, "X"), (1, "Z")): 2.0, ((2, "Y"),): 0.5}, 3, {word("ZZ"): 1.0}, 2), ({((0, "Y"),): 1j}, 1, {((0, "X"), (1, "Z")): 2.0, ((2, "Y"),): 0.5}, 3)]
+    for ta, na, tb, nb in mixed:
+        try:
+            fa = folder().call_funcval(FuncVal(fq.node, home=MULTI), [cls, qop(ta), na], {})
+            fb = folder().call_funcval(FuncVal(fq.node, home=MULTI), [cls, qop(tb), nb], {})
+            prod = folder().call_funcval(FuncVal(mul.node, bound_self=fa, home=MULTI), [fb], {})
+        except Undecidable as e:
+            raise AnalysisError(f"MultiformOperator.__mul__ not foldable on operands of different widths: {e}")
+        except Raised as e:
+            bad_p.append(f"({_show(ta)}) on {na} qubit(s) * ({_show(tb)}) on {nb}: raises {e.exc_type}")
+            continue
+        m += 1
+        want = {}
+        for wa_, ca in ta.items():
+            for wb_, cb in tb.items():
+                ph, w = _simplify(tuple(wa_) + tuple(wb_))
+                want[w] = want.get(w, 0) + ca * cb * ph
+        got = {k: complex(v) for k, v in prod.fields["terms"].items() if abs(complex(v)) > 1e-12}
+        if set(got) != set(want) or any(abs(got[k] - want[k]) > 1e-9 for k in want):
+            bad_p.append(f"({_show(ta)}) on {na} qubit(s) * ({_show(tb)}) on {nb} = {_show(got)}, symbolic product {_show(want)}")
     # chains: the product of a product (an operator left with a residual factor has to stay a usable operand)
     ia, ib = len(ops) - 2, len(ops) - 1
     for first, second, third in ((ia, ib, ib), (ib, ia, ib), (len(words) + 3, len(words) + 3, len(words) + 3)):
